@@ -10,27 +10,43 @@ characters `ValidQuotes` accepts) on which the theorems below rest; re-checked b
 against what `/repo` says now. -/
 theorem tables_ok : TablesOk Gen.shlexWhitespace Gen.validBrackets Gen.validQuoteChars := by decide
 
-/-- **Tokenising is total.**  For every input string and every configuration that passed the
-registry's validation, `callbacks.tokenize` yields a tree of tokens or a `SyntaxError` — never an
-`IndexError`, a hang of the lexer, unbounded recursion of the model, or any other failure.
-(`outside` = the input contains a `\N{…}` escape inside quotes, which the model does not decode.) -/
+/-- **Tokenising is total.**  For every input string, every configuration that passed the
+registry's validation and every Unicode name table (`c.names`, the parameter through which
+`\N{…}` escapes are decoded), `callbacks.tokenize` yields a tree of tokens or a `SyntaxError` —
+never an `IndexError`, a hang of the lexer, unbounded recursion of the model, or any other failure. -/
 theorem tokenize_total (c : Conf) (hv : c.Valid) (s : Str) :
-    (∃ ts, tokenize c s = .tree ts) ∨ (∃ k, tokenize c s = .syntaxError k) ∨ tokenize c s = .outside := by
+    (∃ ts, tokenize c s = .tree ts) ∨ (∃ k, tokenize c s = .syntaxError k) := by
   unfold tokenize
-  obtain ⟨T, hT, hTq, -⟩ := mkTokenizer_ok (effBrackets_ok hv tables_ok) (effPipe c) c.quotes
+  obtain ⟨T, hT, -, hTq, -⟩ := mkTokenizer_ok (effBrackets_ok hv tables_ok) (effPipe c) c.quotes c.names
   rw [hT]
   have h := tokenizeT_noCrash T (hTq ▸ hv.quotesOk tables_ok) s
   simp only
   generalize tokenizeT T s = r at h ⊢
   cases r with
   | ok ts => exact Or.inl ⟨ts, rfl⟩
-  | valueError e => exact Or.inr (Or.inl ⟨_, rfl⟩)
-  | syntaxError e => exact Or.inr (Or.inl ⟨_, rfl⟩)
-  | outside => exact Or.inr (Or.inr rfl)
+  | valueError e => exact Or.inr ⟨_, rfl⟩
+  | syntaxError e => exact Or.inr ⟨_, rfl⟩
   | crash cr => exact h.elim
 
+/-- **Every token is a string of Unicode scalar values** (since fix d2d591c; before it
+`help "\ud800"` produced a token holding a lone surrogate, a `str` that cannot be encoded). -/
+theorem tokens_scalar (c : Conf) (s : Str) (ts : List Tree) (h : tokenize c s = .tree ts) : ScalarL ts := by
+  unfold tokenize at h
+  cases hm : mkTokenizer (effBrackets c) (effPipe c) c.quotes c.names with
+  | error e => simp [hm] at h
+  | ok T =>
+    simp only [hm] at h
+    cases ht : tokenizeT T s with
+    | ok ts' => simp only [ht] at h; injection h with h; subst h; exact tokenizeT_scalar T s _ ht
+    | _ => simp [ht] at h
+
+/-- the former witness: `help "\ud800"` is now a syntax error -/
+theorem surrogate_escape_rejected :
+    tokenize ⟨true, ['[', ']'], false, ['"'], fun _ => none⟩ ['h', 'e', 'l', 'p', ' ', '"', '\\', 'u', 'd', '8', '0', '0', '"'] =
+      .syntaxError (.value .surrogate) := rfl
+
 /-- non-vacuity: the default configuration is valid -/
-example : (⟨true, ['[', ']'], false, ['"']⟩ : Conf).Valid := by decide
+example : (⟨true, ['[', ']'], false, ['"'], fun _ => none⟩ : Conf).Valid := by decide
 
 /-- **Quoting protects any argument.**  For every valid configuration whose quote set contains the
 double quote (every bracket style, pipe on or off, nesting on or off) and every list of argument
@@ -40,7 +56,7 @@ tokenise back to exactly that list: nothing inside the quotes is interpreted. -/
 theorem quote_roundtrip (c : Conf) (hv : c.Valid) (hq : '"' ∈ c.quotes) (xs : List Str) :
     tokenize c (joinChar ' ' (xs.map quote)) = .tree (xs.map fun x => .leaf (toCps x)) := by
   unfold tokenize
-  obtain ⟨T, hT, -⟩ := mkTokenizer_ok (effBrackets_ok hv tables_ok) (effPipe c) c.quotes
+  obtain ⟨T, hT, -⟩ := mkTokenizer_ok (effBrackets_ok hv tables_ok) (effPipe c) c.quotes c.names
   have hd := dqTok_of_mk tables_ok (effBrackets_ok hv tables_ok) hT hq
   rw [hT]
   have := tokenizeT_dq hd quoteBody toCps xs (fun x _ => goodWriter_quoteBody x)
@@ -48,7 +64,7 @@ theorem quote_roundtrip (c : Conf) (hv : c.Valid) (hq : '"' ∈ c.quotes) (xs : 
   simp only [this]
 
 /-- non-vacuity and a concrete instance: brackets, a pipe, a quote, a backslash and non-ASCII text -/
-example : tokenize ⟨true, ['[', ']'], true, ['"']⟩
+example : tokenize ⟨true, ['[', ']'], true, ['"'], fun _ => none⟩
       (joinChar ' ' ([['[', 'a', ']', ' ', '|'], ['"', '\\', 'é', '好']].map quote))
     = .tree [.leaf (toCps ['[', 'a', ']', ' ', '|']), .leaf (toCps ['"', '\\', 'é', '好'])] :=
   quote_roundtrip _ (by decide) (by decide) _
@@ -63,13 +79,13 @@ theorem nesting_exact (c : Conf) (hv : c.Valid) (hn : c.nested = true) (hq : '"'
   have hb' : BracketOk Gen.shlexWhitespace Gen.validQuoteChars [l, r] := hb ▸ tables_ok.1 _ hv.1
   have he : effBrackets c = [l, r] := by simp [effBrackets, hn, hb]
   unfold tokenize
-  obtain ⟨T, hT, -⟩ := mkTokenizer_ok hb' (effPipe c) c.quotes
+  obtain ⟨T, hT, -⟩ := mkTokenizer_ok hb' (effPipe c) c.quotes c.names
   have hbr := brTok_of_mk tables_ok hb' hv.2 hT hq
   rw [he, hT, ← renderList_eq_join]
   simp only [tokenizeT_render hbr ts]
 
 /-- non-vacuity: `[[] "a" ["b ]" []]] "c"` under the default configuration -/
-example : tokenize ⟨true, ['[', ']'], false, ['"']⟩
+example : tokenize ⟨true, ['[', ']'], false, ['"'], fun _ => none⟩
       (joinChar ' ' ([STree.node [.node [], .leaf ['a'], .node [.leaf ['b', ' ', ']'], .node []]], .leaf ['c']].map (render '[' ']')))
     = .tree (toTrees [STree.node [.node [], .leaf ['a'], .node [.leaf ['b', ' ', ']'], .node []]], .leaf ['c']]) :=
   nesting_exact _ (by decide) rfl (by decide) '[' ']' rfl _
@@ -88,18 +104,18 @@ theorem nesting_exact_words (c : Conf) (hv : c.Valid) (hn : c.nested = true) (hq
     tokenize c (renderListW l r ts) = .tree (toTreesW ts) := by
   have he : effBrackets c = [l, r] := by simp [effBrackets, hn, hb]
   unfold tokenize
-  obtain ⟨T, hT, -⟩ := mkTokenizer_ok (effBrackets_ok hv tables_ok) (effPipe c) c.quotes
+  obtain ⟨T, hT, -⟩ := mkTokenizer_ok (effBrackets_ok hv tables_ok) (effPipe c) c.quotes c.names
   obtain ⟨hwd, hlex⟩ := wdTok_of_mk tables_ok hv he hT hq
   rw [hT]
   simp only [tokenizeT_renderW hwd ts (hlex ▸ hw)]
 
 /-- non-vacuity: `foo [bar "x y" [baz]] qux` under the default configuration -/
-example : tokenize ⟨true, ['[', ']'], false, ['"']⟩
+example : tokenize ⟨true, ['[', ']'], false, ['"'], fun _ => none⟩
       (renderListW '[' ']' [.word ['f', 'o', 'o'], .node [.word ['b', 'a', 'r'], .leaf ['x', ' ', 'y'], .node [.word ['b', 'a', 'z']]], .word ['q', 'u', 'x']])
     = .tree (toTreesW [.word ['f', 'o', 'o'], .node [.word ['b', 'a', 'r'], .leaf ['x', ' ', 'y'], .node [.word ['b', 'a', 'z']]], .word ['q', 'u', 'x']]) :=
   nesting_exact_words _ (by decide) rfl (by decide) '[' ']' rfl _
     (by
-      have h : ∀ w, PlainWord ⟨true, ['[', ']'], false, ['"']⟩ w → WordOk (Conf.lexCfg ⟨true, ['[', ']'], false, ['"']⟩) w :=
+      have h : ∀ w, PlainWord ⟨true, ['[', ']'], false, ['"'], fun _ => none⟩ w → WordOk (Conf.lexCfg ⟨true, ['[', ']'], false, ['"'], fun _ => none⟩) w :=
         fun w => wordOk_of_plain ws_subset_seps _ w
       simp only [WordsOkL, WTree.WordsOk, and_true, true_and]
       exact ⟨h _ (by decide), ⟨h _ (by decide), h _ (by decide)⟩, h _ (by decide)⟩)
@@ -116,7 +132,7 @@ theorem nesting_disabled_flat (c : Conf) (hoff : c.nested = false ∨ (c.bracket
   unfold tokenize at h
   rw [he, hp] at h
   simp only [mkTokenizer] at h
-  generalize hT : (⟨Gen.tokenizerSeparators ++ c.quotes, [], [], false, c.quotes⟩ : TokCfg) = T at h
+  generalize hT : (⟨Gen.tokenizerSeparators ++ c.quotes, [], [], false, c.quotes, c.names⟩ : TokCfg) = T at h
   have hl : T.left = [] := by rw [← hT]
   have hr : T.right = [] := by rw [← hT]
   have hpp : T.pipe = false := by rw [← hT]
@@ -136,121 +152,27 @@ theorem nesting_disabled_flat (c : Conf) (hoff : c.nested = false ∨ (c.bracket
   | _ => simp [Bool.false_eq_true, hT, hr'] at h
 
 /-- non-vacuity: `[a] <b>` with nesting off is two plain tokens -/
-example : ∃ ts, tokenize ⟨false, ['[', ']'], true, ['"']⟩ ['[', 'a', ']', ' ', '|'] = .tree ts ∧ ts.length = 2 :=
+example : ∃ ts, tokenize ⟨false, ['[', ']'], true, ['"'], fun _ => none⟩ ['[', 'a', ']', ' ', '|'] = .tree ts ∧ ts.length = 2 :=
   ⟨_, rfl, rfl⟩
 
-/-! ### `utils.str.dqrepr` as the writer
-
-Full statement (FALSE on the pinned tree — see `dqrepr_roundtrip_counterexample`; recorded as known
-finding `C13-dqrepr-latin1-reread`):
-
-    theorem dqrepr_roundtrip (c : Conf) (hv : c.Valid) (hq : '"' ∈ c.quotes) (xs : List Str) :
-        tokenize c (joinChar ' ' (xs.map dqrepr)) = .tree (xs.map fun x => .leaf (toCps x))
-
-What is proved instead: the exact result for *every* argument list (`dqrepr_reread`), the round trip
-for every argument outside the class `InRereadClass` (`dqrepr_roundtrip_partial`), and that every
-argument inside the class comes back as different text (`dqrepr_class_exact`): the class is exact. -/
-
-/-- What arguments written with `dqrepr` come back as, for every argument list: the code points of
-each argument after `_handleToken`'s latin-1/utf-8 step (`reread`). -/
-theorem dqrepr_reread (c : Conf) (hv : c.Valid) (hq : '"' ∈ c.quotes) (xs : List Str) :
-    tokenize c (joinChar ' ' (xs.map dqrepr)) = .tree (xs.map fun x => .leaf (reread (toCps x))) := by
+/-- **`utils.str.dqrepr` protects any argument** (since fix 2552894, which makes it escape only ASCII;
+before it `dqrepr("Â\x80")` = `"\xc2\x80"` was re-read as U+0080): for every valid configuration
+whose quote set contains the double quote and every list of argument strings, the arguments written
+with `dqrepr` and joined by blanks tokenise back to exactly that list. -/
+theorem dqrepr_roundtrip (c : Conf) (hv : c.Valid) (hq : '"' ∈ c.quotes) (xs : List Str) :
+    tokenize c (joinChar ' ' (xs.map dqrepr)) = .tree (xs.map fun x => .leaf (toCps x)) := by
   unfold tokenize
-  obtain ⟨T, hT, -⟩ := mkTokenizer_ok (effBrackets_ok hv tables_ok) (effPipe c) c.quotes
+  obtain ⟨T, hT, -⟩ := mkTokenizer_ok (effBrackets_ok hv tables_ok) (effPipe c) c.quotes c.names
   have hd := dqTok_of_mk tables_ok (effBrackets_ok hv tables_ok) hT hq
   rw [hT]
-  have := tokenizeT_dq hd dqreprBody (fun x => reread (toCps x)) xs (fun x _ => goodWriter_dqreprBody x)
+  have := tokenizeT_dq hd dqreprBody toCps xs (fun x _ => goodWriter_dqreprBody x)
   simp only [show dq dqreprBody = dqrepr from rfl] at this
   simp only [this]
 
-/-- `dqrepr` protects every argument outside the class "all code points ≤ U+00FF, at least one
-non-ASCII, and the code points read as bytes are valid UTF-8". -/
-theorem dqrepr_roundtrip_partial (c : Conf) (hv : c.Valid) (hq : '"' ∈ c.quotes) (xs : List Str)
-    (hx : ∀ x ∈ xs, ¬ InRereadClass x) :
-    tokenize c (joinChar ' ' (xs.map dqrepr)) = .tree (xs.map fun x => .leaf (toCps x)) := by
-  rw [dqrepr_reread c hv hq xs]
-  congr 1
-  apply List.map_congr_left
-  intro x hxm
-  rw [reread_of_not_class x (hx x hxm)]
-
-/-- non-vacuity: text with a code point above U+00FF, pure ASCII with quote and backslash, and
-Latin-1 text whose bytes are not UTF-8 are all outside the class -/
-example : ∀ x ∈ [['é', '中'], ['a', '"', '\\', 'b'], []], ¬ InRereadClass x := by
-  intro x hx
-  simp only [List.mem_cons, List.not_mem_nil, or_false] at hx
-  rcases hx with rfl | rfl | rfl
-  · exact fun h => absurd (h.1 '中' (by simp)) (by decide)
-  · exact fun h => by obtain ⟨_, ⟨c, hc, hge⟩, _⟩ := h; simp at hc; rcases hc with rfl | rfl | rfl | rfl <;> revert hge <;> decide
-  · exact fun h => by obtain ⟨_, ⟨c, hc, _⟩, _⟩ := h; simp at hc
-
-/-- the witness: `dqrepr("Â\x80")` = `"\xc2\x80"` is re-read as U+0080 — the round trip fails -/
-theorem dqrepr_roundtrip_counterexample :
-    tokenize ⟨true, ['[', ']'], false, ['"']⟩ (dqrepr ['Â', Char.ofNat 0x80]) = .tree [.leaf [0x80]] ∧
-    ([0x80] : List Nat) ≠ toCps ['Â', Char.ofNat 0x80] := by
-  refine ⟨?_, by decide⟩
-  have h := dqrepr_reread ⟨true, ['[', ']'], false, ['"']⟩ (by decide) (by decide) [['Â', Char.ofNat 0x80]]
-  simp only [List.map_cons, List.map_nil, joinChar] at h
-  rw [h]
-  have e1 : latin1? (toCps ['Â', Char.ofNat 0x80]) = some [0xC2, 0x80] := by decide
-  have e2 : utf8Decode? [0xC2, 0x80] = some [Char.ofNat 0x80] := by
-    rw [show ([0xC2, 0x80] : List UInt8) = utf8 [Char.ofNat 0x80] by decide, utf8Decode?_utf8]
-  simp only [reread, e1, e2]
-  rfl
-
-/-- the class is exact: *every* argument inside it comes back as different text -/
-theorem dqrepr_class_exact (c : Conf) (hv : c.Valid) (hq : '"' ∈ c.quotes) (x : Str) (h : InRereadClass x) :
-    tokenize c (dqrepr x) ≠ .tree [.leaf (toCps x)] := by
-  have h1 := dqrepr_reread c hv hq [x]
-  simp only [List.map_cons, List.map_nil, joinChar] at h1
-  rw [h1]
-  intro he
-  injection he with he
-  injection he with he _
-  injection he with he
-  exact reread_of_class x h he
-
-/-! ### tokens that are not strings of Unicode scalar values
-
-`tokenize_total` says the result is a tree of *tokens*; a token is a list of code points (`List Nat`),
-not a `Str`, because the implementation can return a Python `str` holding a lone surrogate: the
-`unicode_escape` decoder accepts the escapes `\ud800`…`\udfff` (and `\U0000d800`…), the latin-1
-re-encoding then fails and `_handleToken` keeps the decoded text.  Such a token cannot be encoded
-(`irc.reply` of it raises `UnicodeEncodeError`).  Recorded as known finding
-`C13-surrogate-escape-token`; the statement "every token is a string of Unicode scalar values"
-
-    theorem tokens_scalar (c : Conf) (hv : c.Valid) (s : Str) (ts) (h : tokenize c s = .tree ts) : AllScalar ts
-
-is FALSE on the pinned tree (witness below).  What is proved: everything the bot's own writers
-(`quote`, `dqrepr`) produce comes back as scalar-value strings. -/
-
-/-- the witness: `help "\ud800"` tokenises to `help` and a token holding the lone surrogate U+D800 -/
-theorem surrogate_escape_token :
-    tokenize ⟨true, ['[', ']'], false, ['"']⟩ ['h', 'e', 'l', 'p', ' ', '"', '\\', 'u', 'd', '8', '0', '0', '"'] =
-      .tree [.leaf (toCps ['h', 'e', 'l', 'p']), .leaf [0xD800]] ∧
-    ¬ ∃ x : Str, toCps x = [0xD800] := by
-  refine ⟨rfl, ?_⟩
-  rintro ⟨x, hx⟩
-  cases x with
-  | nil => simp [toCps] at hx
-  | cons c t =>
-    simp only [toCps, List.map_cons, List.cons.injEq] at hx
-    have hv := c.valid
-    simp only [UInt32.isValidChar, Nat.isValidChar] at hv
-    have : c.val.toNat = 0xD800 := hx.1
-    omega
-
-/-- arguments written with `quote` or `dqrepr` always come back as strings of Unicode scalar values
-(possibly *different* strings for `dqrepr`, see `dqrepr_reread`) -/
-theorem writers_scalar (x : Str) : (∃ y : Str, toCps x = toCps y) ∧ ∃ y : Str, reread (toCps x) = toCps y := by
-  refine ⟨⟨x, rfl⟩, ?_⟩
-  unfold reread
-  cases latin1? (toCps x) with
-  | none => exact ⟨x, rfl⟩
-  | some bs =>
-    simp only
-    cases utf8Decode? bs with
-    | none => exact ⟨x, rfl⟩
-    | some s => exact ⟨s, rfl⟩
+/-- the former witness and its relatives now round-trip -/
+example : tokenize ⟨true, ['[', ']'], false, ['"'], fun _ => none⟩
+      (joinChar ' ' ([['Â', Char.ofNat 0x80], ['Ã', '©'], ['a', '"', '\\', '\n', Char.ofNat 0]].map dqrepr))
+    = .tree ([['Â', Char.ofNat 0x80], ['Ã', '©'], ['a', '"', '\\', '\n', Char.ofNat 0]].map fun x => .leaf (toCps x)) :=
+  dqrepr_roundtrip _ (by decide) (by decide) _
 
 end C13
